@@ -494,6 +494,15 @@ var Faults = []Fault{
 		tv.set(val(m.VFloat, c.R.Pick("1e999", "-1.5E+400")))
 		return true
 	}},
+	{"int-beyond-int64-for-id-or-float", "ValuesOfCorrectType", func(c *FCtx) bool {
+		// the reference abstains (the specification does not bound ID/Float literals); the library rejects what it cannot convert
+		tv, ok := c.pickValue(func(tv typedValue, td *tsys.Def) bool { return isBuiltinScalar(td, "ID", "Float") && namedLeaf(tv) })
+		if !ok {
+			return false
+		}
+		tv.set(val(m.VInt, c.R.Pick("99999999999999999999", "-18446744073709551616")))
+		return true
+	}},
 	{"unknown-enum-value", "ValuesOfCorrectType", func(c *FCtx) bool {
 		tv, ok := c.pickValue(func(tv typedValue, td *tsys.Def) bool { return td != nil && td.Kind == "enum" && namedLeaf(tv) })
 		if !ok {
